@@ -548,6 +548,8 @@ bool QXmppStunMessage::decode(const QByteArray &buffer, const QByteArray &key, Q
     // parse STUN attributes
     int done = 0;
     bool after_integrity = false;
+    // if a key is given, the message must carry a verified MESSAGE-INTEGRITY
+    bool integrity_missing = !key.isEmpty();
     while (done < length) {
         quint16 a_type, a_length;
         stream >> a_type;
@@ -753,6 +755,7 @@ bool QXmppStunMessage::decode(const QByteArray &buffer, const QByteArray &key, Q
                     *errors << u"Bad message integrity"_s;
                     return false;
                 }
+                integrity_missing = false;
             }
 
             // from here onwards, only FINGERPRINT is allowed
@@ -777,6 +780,10 @@ bool QXmppStunMessage::decode(const QByteArray &buffer, const QByteArray &key, Q
             }
 
             // stop parsing, no more attributes are allowed
+            if (integrity_missing) {
+                *errors << u"Missing message integrity"_s;
+                return false;
+            }
             return true;
 
         } else if (a_type == IceControlling) {
@@ -805,6 +812,10 @@ bool QXmppStunMessage::decode(const QByteArray &buffer, const QByteArray &key, Q
         }
         stream.skipRawData(pad_length);
         done += 4 + a_length + pad_length;
+    }
+    if (integrity_missing) {
+        *errors << u"Missing message integrity"_s;
+        return false;
     }
     return true;
 }
